@@ -11,7 +11,9 @@ if [ -n "$(git -C "$REPO" status --porcelain -- hmclab)" ]; then echo "$REPO/hmc
 IDS="$*"; [ -z "$IDS" ] && IDS=$(python3 -c "import json;print(json.load(open('seeded/$NAME/meta.json'))['property'])")
 TIER=${TIER:-quick}
 git -C "$REPO" apply "$(pwd)/$PATCH" || exit 2
-trap 'git -C "$REPO" checkout -- hmclab' EXIT
+# the evidence of a run against a seeded tree is not evidence of record
+export VERIF_EVIDENCE_DIR=$(mktemp -d /tmp/ev_try.XXXX)
+trap 'git -C "$REPO" checkout -- hmclab; rm -rf "$VERIF_EVIDENCE_DIR"' EXIT
 for id in $IDS; do
   out=$(./check $id --tier $TIER 2>&1); rc=$?
   echo "== seed $NAME check $id tier $TIER exit $rc"
